@@ -203,7 +203,7 @@ SCOPE_WORDS = {
 }
 
 
-def no_shared_writes(ctx: Ctx, rule: str, shorts=None, accept=("Fresh", "Self")):
+def no_shared_writes(ctx: Ctx, rule: str, shorts=None, accept=("Fresh", "Self"), origin_words=None):
     """A measure never writes into an array it did not create: its operands are the cached values of OTHER measures
     (lazyproperty values, blocks handed over by reference), so an in-place write changes what those report afterwards -
     the value of this property's measure, or of the one it borrowed from, then depends on which was read first.
@@ -224,6 +224,9 @@ def no_shared_writes(ctx: Ctx, rule: str, shorts=None, accept=("Fresh", "Self"))
                 continue
         n += 1
         if w.cls in accept or "read-only flag" in w.sig:
+            continue
+        # only objects that come from the named layer (e.g. the cube-measure layer, whose arrays are views of the payload)
+        if origin_words is not None and not any(x in w.origin for x in origin_words):
             continue
         bad.append(w)
     ctx.count("write sites in this property's measure code", n)
@@ -248,15 +251,41 @@ def generic_lints(ctx: Ctx, rule: str = "lint", kinds=None, scope=None):
     from ..loader import AnalysisError
     from ..scope import in_scope
 
-    if L.self_check() != (15, 0) or L.orientation_self_check() != (1, 0):
+    if L.self_check() != (16, 0) or L.orientation_self_check() != (1, 0):
         raise AnalysisError(f"generic lints: the positive control is no longer recognised {L.self_check()} {L.orientation_self_check()}")
     n, hits = 0, []
+    members = []
+    chosen = set()
     for m in ctx.repo.all_members():
         short = m.cls.module.path.split("cr/cube/")[-1]
         if not (scope(short, m.cls.name, m.name) if scope is not None else in_scope(ctx.prop, short, m.cls.name, m.name)):
             continue
+        members.append(m)
+        chosen.add(id(m.node))
+    # ... and the PRIVATE helpers of the same class those members read (`self._subvar_Ns`), two levels deep: a
+    # computation hoisted into a helper is still this property's computation
+    frontier = list(members)
+    for _level in range(2):
+        nxt = []
+        for m in frontier:
+            for a in ast.walk(m.node):
+                if isinstance(a, ast.Attribute) and isinstance(a.value, ast.Name) and a.value.id in ("self", "cls") and a.attr.startswith("_") and not a.attr.startswith("__"):
+                    h = ctx.repo.lookup(m.cls, a.attr)
+                    if h is not None and id(h.node) not in chosen and h.cls.module is m.cls.module:
+                        chosen.add(id(h.node))
+                        nxt.append(h)
+        members += nxt
+        frontier = nxt
+    for m in members:
+        short = m.cls.module.path.split("cr/cube/")[-1]
         n += 1
-        for kind, text, why in L.scan_function(m.node, m.name, ctx.prop in ORDERING_PROPS):
+        helpers = []
+        for a in ast.walk(m.node):
+            if isinstance(a, ast.Call) and isinstance(a.func, ast.Attribute) and isinstance(a.func.value, ast.Name) and a.func.value.id in ("self", "cls"):
+                h = ctx.repo.lookup(m.cls, a.func.attr)
+                if h is not None and h.node is not m.node:
+                    helpers.append(h.node)
+        for kind, text, why in L.scan_function(m.node, m.name, ctx.prop in ORDERING_PROPS, helpers):
             if kinds is None and ctx.prop == "C18" and kind not in C18_LINT_KINDS:
                 continue
             if kinds is not None and kind not in kinds:
@@ -267,7 +296,7 @@ def generic_lints(ctx: Ctx, rule: str = "lint", kinds=None, scope=None):
     for where, kind, why in hits:
         ctx.violated(f"{rule}.{kind}", where, kind, "see cubeverif/lints.py", why)
     if not hits:
-        ctx.held(rule, "this property's code: floor division, int casts, identity with literals, unordered sets", f"{n} functions scanned, none found", "", "positive control: 15 of 15 recognised")
+        ctx.held(rule, "this property's code: floor division, int casts, identity with literals, unordered sets", f"{n} functions scanned, none found", "", "positive control: 16 of 16 recognised")
 
 
 # --------------------------------------------------------------------------- dependency footprints of the measures
@@ -816,3 +845,169 @@ def stored_value_expr(member, target_text: str):
     ast.fix_missing_locations(fn)
     params = [a.arg for a in fn.args.posonlyargs + fn.args.args + fn.args.kwonlyargs if a.arg not in ("self", "cls")]
     return Summarizer().summarize(fn, {p: ast.Name(id=p, ctx=ast.Load()) for p in params})
+
+
+# --------------------------------------------------------------------------- each element enters a subtotal at most once
+def subtotal_terms_once(ctx: Ctx, rule: str = "terms-once"):
+    """The positions a subtotal sums (`_Subtotal.addend_idxs` / `.subtrahend_idxs`) are a SELECTION of the dimension's valid
+    elements: an element named twice in the insertion's id list is still one element, counted once.  Decided on the
+    iteration domain of the generator that produces the positions (helpers inlined): over the elements (each yields at
+    most one position) -> held; over the id list (one position per MENTION) without a de-duplicating wrapper ->
+    violated: a repeated id is summed twice, the subtotal exceeds the count of the named categories and its proportion
+    its base."""
+    from ..symex import expand, u
+
+    ci = ctx.repo.cls("dimension.py", "_Subtotal")
+    ids = {"addend_idxs": "addend_ids", "subtrahend_idxs": "subtrahend_ids"}
+    for member, idname in ids.items():
+        where = f"dimension.py::_Subtotal.{member}"
+        if ctx.repo.lookup(ci, member) is None:
+            from ..loader import AnalysisError
+
+            raise AnalysisError(f"{where} vanished")
+        e = expand(ctx.repo, ci, member, stop=lambda m: m.name in ("addend_ids", "subtrahend_ids", "_valid_elements"))
+        node, dedupe = e, False
+        gen = None
+        while True:
+            if isinstance(node, (ast.GeneratorExp, ast.ListComp, ast.SetComp)):
+                gen = node
+                dedupe = dedupe or isinstance(node, ast.SetComp)
+                break
+            if isinstance(node, ast.Call) and node.args:
+                f = u(node.func)
+                if f in ("set", "frozenset", "np.unique", "dict.fromkeys", "OrderedDict.fromkeys", "collections.OrderedDict.fromkeys"):
+                    dedupe = True
+                node = node.args[0]
+                continue
+            break
+        ctx.count("subtotal position generators")
+        if gen is None or len(gen.generators) != 1:
+            ctx.undecided(rule, where, u(e)[:160], "positions selected from the enumeration of the valid elements")
+            continue
+        it = u(gen.generators[0].iter)
+        if "_valid_elements" in it and "_ids" not in it:
+            ctx.held(rule, where, f"iterates over {it}: one position per element", "each element contributes at most once")
+        elif dedupe:
+            ctx.held(rule, where, f"iterates over {it} under a de-duplicating wrapper", "each element contributes at most once")
+        elif idname in it or "_ids" in it:
+            ctx.violated(rule, where, f"one position per MENTION in {it}: {u(e)[:140]}", "one position per element (a selection of the valid elements, or de-duplicated)",
+                         "an id listed twice in the insertion is summed twice: the subtotal is larger than the count of the categories it names, and its proportion can exceed 1")
+        else:
+            ctx.undecided(rule, where, f"iteration domain {it}", "the valid elements")
+    ctx.require_min("subtotal position generators", 2)
+
+
+# --------------------------------------------------------------------------- which dimension types carry no subtotals
+def subtotal_free_types(ctx: Ctx, rule: str = "subtotal-free-types"):
+    """A dimension's subtotals are dropped wholesale (an empty `_Subtotals`) for exactly the two kinds of SUBVARIABLE
+    dimension whose elements cannot be summed (MR_SUBVAR, CA_SUBVAR): decision table over every DIMENSION_TYPE member of
+    the type guard(s) under which `Dimension.subtotals` / `.subtotals_in_payload_order` return the empty collection
+    (type-predicate helpers inlined; spelling-independent).  Any other type losing its subtotals makes insertions vanish
+    that are neither hidden nor pruned; either of the two keeping them sums subvariables."""
+    from ..dectab import DTop, Raises
+    from ..symex import expand, strip_ifexp_paths, u
+    from ..typetab import dt_members, eval_over_types
+
+    ci = ctx.repo.cls("dimension.py", "Dimension")
+    spec = {"MR_SUBVAR", "CA_SUBVAR"}
+
+    def type_only(m):
+        reads = {n.attr for n in ast.walk(m.node) if isinstance(n, ast.Attribute) and isinstance(n.value, ast.Name) and n.value.id == "self"}
+        return bool(reads) and reads <= {"dimension_type"}
+
+    for member in ("subtotals", "subtotals_in_payload_order"):
+        where = f"dimension.py::Dimension.{member}"
+        if ctx.repo.lookup(ci, member) is None:
+            from ..loader import AnalysisError
+
+            raise AnalysisError(f"{where} vanished")
+        e = expand(ctx.repo, ci, member, stop=lambda m: not type_only(m))
+        forced = []  # conjunctions of type guards under which the empty collection is returned
+        for guards, leaf in strip_ifexp_paths(e):
+            empty = isinstance(leaf, ast.Call) and u(leaf.func).endswith("_Subtotals") and leaf.args and u(leaf.args[0]) in ("[]", "()", "tuple()", "list()", "{}")
+            if not empty:
+                continue
+            if all("dimension_type" in u(t) for t, _p in guards) and guards:
+                forced.append(guards)
+        ctx.count("subtotal-free type tables")
+        if not forced:
+            ctx.undecided(rule, where, "no path returns the empty collection under type guards alone", "empty for MR_SUBVAR / CA_SUBVAR")
+            continue
+        bad, n = [], 0
+        try:
+            for mem in dt_members(ctx.repo):
+                got = False
+                for guards in forced:
+                    ok = True
+                    for t, pol in guards:
+                        v = bool(eval_over_types(ctx.repo, ci.module, t, {"self.dimension_type": mem}))
+                        if v != pol:
+                            ok = False
+                            break
+                    got = got or ok
+                n += 1
+                if got != (mem in spec):
+                    bad.append(f"{mem}: subtotals {'dropped' if got else 'kept'} (specified {'dropped' if mem in spec else 'kept'})")
+        except (DTop, Raises) as exc:
+            ctx.undecided(rule, where, f"DECTAB: {exc}", "table over DIMENSION_TYPE")
+            continue
+        ctx.ob(rule, where, bad or f"{n} dimension types agree", "subtotals dropped wholesale for MR_SUBVAR and CA_SUBVAR only", not bad,
+               "an insertion disappears only when it is hidden or the opposing dimension is pruned to nothing; the items of an MR / CA dimension are never summed")
+    ctx.require_min("subtotal-free type tables", 2)
+
+
+# --------------------------------------------------------------------------- zip of a filtered with an unfiltered view of one list
+def _seq_source(e: ast.AST):
+    """(source text, filtered?) of a sequence expression: a comprehension over ONE list (through tuple / list wrappers)."""
+    while isinstance(e, ast.Call) and u(e.func) in ("tuple", "list", "iter") and len(e.args) == 1:
+        e = e.args[0]
+    if isinstance(e, (ast.ListComp, ast.GeneratorExp)) and len(e.generators) == 1:
+        return u(e.generators[0].iter), bool(e.generators[0].ifs)
+    if isinstance(e, ast.Call) and u(e.func) == "filter" and len(e.args) == 2:
+        return u(e.args[1]), True
+    return u(e), False
+
+
+_ZIP_CONTROL = ("dict(zip(tuple(el['id'] for el in self._d['elements']), tuple(el['value'] for el in self._d['elements'] if ok(el))))",
+                "dict(zip(tuple(el['id'] for el in self._d['elements']), tuple(el['value'] for el in self._d['elements'])))")
+
+
+def _zip_mismatches(e: ast.AST):
+    out = []
+    for n in ast.walk(e):
+        if isinstance(n, ast.Call) and isinstance(n.func, ast.Name) and n.func.id == "zip" and len(n.args) >= 2:
+            srcs = [_seq_source(a) for a in n.args]
+            for s_, f_ in srcs:
+                if f_ and any(s2 == s_ and not f2 for s2, f2 in srcs):
+                    out.append(f"zip of a FILTERED and an UNFILTERED view of {s_}: {u(n)[:150]}")
+                    break
+    return out
+
+
+def zip_pairing(ctx: Ctx, rule: str, short: str, cname: str):
+    """zip(A, B) where A and B are read off the SAME list, one through a filter and one without: position k of A is not
+    element k of the list any more - unless everything filtered out stands at the end (where zip merely truncates), every
+    later pair is shifted by one.  Members of the class fully expanded (lazy properties and helpers inlined)."""
+    from ..loader import AnalysisError
+    from ..symex import expand
+
+    if [len(_zip_mismatches(ast.parse(t, mode="eval"))) for t in _ZIP_CONTROL] != [1, 0]:
+        raise AnalysisError("zip pairing: the positive control is no longer recognised")
+    ci = ctx.repo.cls(short, cname)
+    n = 0
+    hits = []
+    for name, m in ci.members.items():
+        if not any(isinstance(x, ast.Name) and x.id == "zip" for x in ast.walk(m.node)):
+            continue
+        n += 1
+        try:
+            e = expand(ctx.repo, ci, name)
+        except Exception:
+            continue
+        for h in _zip_mismatches(e):
+            hits.append((f"{short}::{cname}.{name}", h))
+    ctx.count(f"members of {cname} that pair sequences with zip", n)
+    for where, h in hits:
+        ctx.violated(rule, where, h, "both sequences are taken from the list in the same way", "a filtered-out item that is not the LAST one shifts every later pair: each later id is paired with the next item's value")
+    if not hits:
+        ctx.held(rule, f"{short}::{cname}", f"{n} member(s) zip sequences; none pairs a filtered with an unfiltered view of one list", "", "positive control recognised")
